@@ -37,13 +37,27 @@ def make_octets(size, k=0):
     return octets
 
 
-def make_handover(size, kind, k=0):
+def make_handover(size, kind, k=0, split=None):
     """Hr/Hs message of exactly `size` octets: the handover record plus a
-    filler record."""
+    filler record.  split=n: the records in front of the last one take
+    exactly n octets (a fragment boundary that is a record boundary)."""
     import ndef
     head = (ndef.HandoverRequestRecord('1.2', 0x1234 + k) if kind == 'Hr'
             else ndef.HandoverSelectRecord('1.2'))
     base = len(b''.join(ndef.message_encoder([head])))
+    if split is not None:
+        def rec(n, j):
+            return ndef.Record('unknown', '', filler(
+                n - 3 if n <= 258 else n - 6, j))
+        mid, last = split - base, size - split
+        if not (3 <= mid and 3 <= last) or 258 < mid < 262 or 258 < last < 262:
+            raise ValueError((size, split))
+        octets = b''.join(ndef.message_encoder(
+            [head, rec(mid, k), rec(last, k + 1)]))
+        first = b''.join(list(ndef.message_encoder(
+            [head, rec(mid, k), rec(last, k + 1)]))[:2])
+        assert len(octets) == size and len(first) == split
+        return octets
     rest = size - base
     if rest < 3:
         raise ValueError(size)
@@ -72,8 +86,8 @@ def run_case(case):
     if kind in ('put', 'get'):
         msg = make_octets(size)
     else:
-        msg = make_handover(size, 'Hr')
-        msg2 = make_handover(size + 1, 'Hr', 3)
+        msg = make_handover(size, 'Hr', split=case.get('split'))
+        msg2 = make_handover(size + 1, 'Hr', 3, split=case.get('split'))
     resp_octets = {}
     if kind == 'get':
         resp_octets[0] = make_octets(size, 5)
@@ -166,10 +180,12 @@ def run_case(case):
                                  horizon=120.0, max_steps=2000000)
     if case.get('slow'):
         nfc.llcp.Socket.recv = slow_recv
+    stack.DID[0] = case.get('did')
     try:
         s.run()
     finally:
         nfc.llcp.Socket.recv = orig_recv
+        stack.DID[0] = None
     return judge(case, s, ctx, net, obs, msg,
                  msg2 if kind == 'ho2' else None, resp_octets)
 
@@ -312,6 +328,18 @@ def cases(tier):
                 for sz in ss:
                     n += 1
                     out.append(dict(base, kind=kind, size=sz, agf=n % 2 == 0))
+            # the initiator assigns a device identifier (one octet more in
+            # every NFC-DEP frame, in both directions)
+            for kind in ('put', 'get', 'ho'):
+                for sz in (40, 3 * m_up + 5):
+                    out.append(dict(base, kind=kind, size=sz, did=1,
+                                    agf=sz > 40))
+            # handover requests whose k-th fragment ends with a record
+            for kind in ('ho', 'ho2'):
+                for k in (1, 2):
+                    for tail in (9, 140):
+                        out.append(dict(base, kind=kind, split=k * m_up,
+                                        size=k * m_up + tail, agf=k == 1))
             # a slow consumer on either side (the receive window fills up)
             for kind in ('put', 'get', 'ho2'):
                 for slow in ('server', 'client'):
